@@ -34,6 +34,7 @@ mod c18;
 mod c08;
 mod c02_run;
 mod c10_frames;
+mod c02_expr;
 
 pub(in crate::program) fn bare_program<'p>(arena: &'p Arena) -> Program<'p> {
     let str_interner = StrInterner::new();
